@@ -94,6 +94,22 @@ def _make_items(vals, ids, fmt):
     if fmt == "dict_int":
         d = {int(i): v for i, v in zip(ids, vals)}
         return d, None, lambda x: _int(x)
+    if fmt == "dict_exotic":
+        # unusual but legitimate dict keys, one homogeneous family per call: tuples, negative integers, half-integers, strings
+        # among which the EMPTY string (a falsy name)
+        fam = (int(ids[0]) if len(ids) else 0) % 4
+        def nm(j, i):
+            if fam == 0:
+                return (int(i), "t")
+            if fam == 1:
+                return -int(i) - 1
+            if fam == 2:
+                return int(i) + 0.5
+            return "" if j == 0 else name_str(i)
+        names = [nm(j, i) for j, i in enumerate(ids)]
+        back = {n: int(i) for n, i in zip(names, ids)}
+        d = {n: v for n, v in zip(names, vals)}
+        return d, None, lambda x, back=back: back[x]
     if fmt == "names_valueof":
         d = _register("valueof-dict", {name_str(i): v for i, v in zip(ids, vals)})
         return [name_str(i) for i in ids], (lambda x, d=d: d[x]), lambda x: int(x[1:])
